@@ -95,6 +95,7 @@ func runC06(c *kit.Ctx) {
 	// ---- R2 ---------------------------------------------------------------
 	c.StartRule("R2", "whole rows only, unless partial results were asked for", 3)
 	noFetchedRowIsSkipped(c)
+	fetchEndsOnlyWhenTheScanIsOver(c)
 	endOfScanRowHasCells(c)
 	decodedFlagsAreNotShared(c)
 	{
@@ -234,6 +235,7 @@ func runC06(c *kit.Ctx) {
 
 	// ---- R4 ---------------------------------------------------------------
 	c.StartRule("R4", "next start row comes from the answered region", 2)
+	regionKeysAreNotWrittenThrough(c)
 	renewerNeverEndsTheScan(c)
 	{
 		startRowF := p.Field("", "scanner", "startRow")
